@@ -212,7 +212,7 @@ def resolve(case, iout):
                 for p in range(k):
                     v = parse_ds(d.get("val%d" % p, "[]")) or []
                     for e in flat(v): foldof[e[0]] = p
-                new = "CI %s %s %s %s" % (t[1], t[2], t[3], " ".join(str(foldof[e[0]]) for e in old))
+                new = "CR %s %s %s %s" % (t[1], t[2], t[3], " ".join(str(foldof[e[0]]) for e in old))   # createCVIID with the drawn folds
         except Exception as ex:
             new = l   # unresolvable (crash/exception on the implementation side): the model line stays, outputs will differ
         tr.update(d)
@@ -221,6 +221,12 @@ def resolve(case, iout):
 
 # ------------------------------------------------------------------ spec monitor on the implementation output
 def ms(l): return sorted(l)
+
+def opt_sizes(n, m):
+    """detail::optimalBatchSizes, independent of the Coq model"""
+    if n == 0: return []
+    b = (n + m - 1) // m; q = n // b; rem = n - b * q
+    return [q + 1] * rem + [q] * (b - rem)
 
 def monitor(case, iout, prop):
     bad = []; tr = Track()
@@ -353,9 +359,46 @@ def monitor(case, iout, prop):
                 if c != "CT":
                     m = a[2]
                     if any(len(b) > m or not b for b in R[r]): fail(i, "batch size outside [1,max]")
-                if d.get("shape%d" % r) != oldshape.get(r): fail(i, "element shape lost: %s -> %s" % (oldshape.get(r), d.get("shape%d" % r)))
+                # the harness marks the shapes before the call (label shape (k+3); a default 0-D input shape becomes (k+5))
+                wish = oldshape.get(r); wish = "(%d)" % (k + 5) if wish == "()" else wish
+                wlsh = "(%d)" % (k + 3)
+                if d.get("shape%d" % r) != wish: fail(i, "element shape lost: %s -> %s" % (wish, d.get("shape%d" % r)))
+                if d.get("lshape") != wlsh: fail(i, "label shape lost: %s -> %s" % (wlsh, d.get("lshape")))
                 for p in range(k):
-                    if vals[p] and d.get("vshape%d" % p) != oldshape.get(r): fail(i, "fold %d: element shape lost" % p); break
+                    if d.get("vshape%d" % p) != wish or d.get("tshape%d" % p) != wish:
+                        fail(i, "fold %d: element shape lost (validation %s, training %s, dataset %s)" % (p, d.get("vshape%d" % p), d.get("tshape%d" % p), wish)); break
+                    if d.get("vlshape%d" % p) != wlsh or d.get("tlshape%d" % p) != wlsh:
+                        fail(i, "fold %d: label shape lost (validation %s, training %s, dataset %s)" % (p, d.get("vlshape%d" % p), d.get("tlshape%d" % p), wlsh)); break
+                folds = [[int(x) for x in f.split(",")] if f else [] for f in d["folds"].split(";")] if d.get("folds") not in (None, True) else [[] for _ in range(k)]
+                if len(folds) != k: fail(i, "%d folds instead of %d" % (len(folds), k))
+                if c != "CT":
+                    # contiguous layout: the batches of fold 0, then fold 1, ...; every fold cut by optimalBatchSizes
+                    m = a[2]
+                    if [b for v in vals for b in v] != R[r]: fail(i, "the reorganised set is not the validation parts one after the other")
+                    nb0 = 0
+                    for p in range(k):
+                        if folds[p] != list(range(nb0, nb0 + len(vals[p]))): fail(i, "fold %d: batch indices %s are not the next %d batches" % (p, folds[p], len(vals[p]))); break
+                        nb0 += len(vals[p])
+                        if [len(b) for b in vals[p]] != opt_sizes(len(flat(vals[p])), m): fail(i, "fold %d: batch sizes %s are not optimalBatchSizes(%d,%d)" % (p, [len(b) for b in vals[p]], len(flat(vals[p])), m)); break
+                        if trs[p] != [b for q in range(k) if q != p for b in vals[q]]: fail(i, "training part %d is not the batches of the other folds in order" % p); break
+                    if c in ("CS", "CB") and vs != [len(e) // k + (1 if p < len(e) % k else 0) for p in range(k)]: fail(i, "fold sizes %s: the first n mod k folds must get one more" % vs)
+                    if c in ("CI", "CR", "CF"):
+                        if c == "CF": n = len(e); src = a[3:3 + n]; fo = a[3 + n:]
+                        elif c == "CI": fo = a[3:]; src = list(range(len(e)))
+                        else:
+                            pos = {x: j for j, x in enumerate(e)}; src = list(range(len(e))); fo = [None] * len(e)
+                            for p in range(k):
+                                for x in flat(vals[p]): fo[pos[x]] = p
+                        for p in range(k):
+                            if flat(vals[p]) != [e[src[tt]] for tt in range(len(e)) if fo[tt] == p]: fail(i, "fold %d does not hold its elements in the order of the index vector" % p); break
+                else:
+                    nb = len(old[r])
+                    if R[r] != old[r]: fail(i, "createCVBatch changed the dataset")
+                    if sorted(x for f in folds for x in f) != list(range(nb)): fail(i, "the folds %s are not a partition of the %d batch indices" % (folds, nb))
+                    if [len(f) for f in folds] != [nb // k + (1 if p < nb % k else 0) for p in range(k)]: fail(i, "batches per fold %s: the first nb mod k folds must get one more" % [len(f) for f in folds])
+                    for p in range(k):
+                        if vals[p] != [old[r][j] for j in folds[p]]: fail(i, "validation part %d is not the batches of its fold" % p); break
+                        if trs[p] != [old[r][j] for j in range(nb) if j not in folds[p]]: fail(i, "training part %d is not the remaining batches in order" % p); break
         except (KeyError, IndexError, ValueError, TypeError) as ex:
             fail(i, "unparsable/incomplete output (%s): %s" % (type(ex).__name__, o[:120]))
         if bad: break
@@ -413,7 +456,7 @@ def main():
         if ck.violations: break
     ck.cov["evaluations"] = total_eval
     ck.cov["distinct_nontrivial"] = len(distinct)
-    ck.cov["rule"] = "random operation histories over 4 dataset registers of LabeledData<RealVector|unsigned|CompressedRealVector, unsigned> (create, repartition, splitBatch, splice, append, reorder, shuffle, indexedSubset, splitAtElement, repartitionByClass, binarySubProblem, element/iterator access, view->dataset, view subset of subset->dataset, transform%s); element counts 1..17 (40 thorough) aimed at n mod max in {0,1,max-1}, labels with absent classes; distinct = distinct (type, history)" % (", all CV fold constructors" if PROP == "C12" else "")
+    ck.cov["rule"] = "random operation histories over 4 dataset registers of LabeledData<RealVector|unsigned|CompressedRealVector, unsigned> (create, repartition, splitBatch, splice, append, reorder, shuffle, indexedSubset, splitAtElement, repartitionByClass, binarySubProblem, element/iterator access, view->dataset, view subset of subset->dataset, transform%s); element counts 1..17 (40 thorough) aimed at n mod max in {0,1,max-1}, labels with absent classes; distinct = distinct (type, history)" % (", all six CV fold constructors through the model's cv_create/scv_create (createCVIID with the drawn folds read back), validation(i)/training(i) of every fold, element shapes of the set and of every part for the input and the label container" if PROP == "C12" else "")
     ck.cov["samples"] = samples
     ck.notes["op_mix"] = opmix
     ck.finish()
